@@ -23,6 +23,13 @@ Oracle clauses (none asks more than the property statement):
                  with their values; the reported optimum is not worse than the best feasible loaded point;
 5. ``replay``    unnormalised design space + SLSQP / L-BFGS-B / DOE: the final history of crash + restart
                  equals the history of the uninterrupted run.
+
+Every crash point is restarted in two modes, served by one child interpreter on two copies of the backup:
+``keep`` (``reset_iteration_counters=False``, the documented option) and ``default`` (what a plain
+``scenario.execute(...)`` after ``set_optimization_history_backup(load=True)`` does: the driver resets the counter
+the scenario has just restored).  Clause 4 is a verdict in both modes.  Clause 5 is a verdict in ``keep`` mode and,
+in ``default`` mode, whenever the uninterrupted run was not ended by ``max_iter`` (a reset counter legitimately
+gives a fresh budget, which only changes a run that exhausts it); otherwise it is an observation.
 """
 
 from __future__ import annotations
@@ -34,6 +41,8 @@ import os
 import shutil
 import subprocess
 import sys
+import threading
+from concurrent.futures import ThreadPoolExecutor
 from pathlib import Path
 
 import numpy as np
@@ -49,15 +58,21 @@ RULE = (
     "harness-discipline executions; crash points k = 1..K (thorough: all; quick: every ceil(K/8)-th) are each "
     "run as [child dies in the k-th execution] -> [parent loads the backup] -> [child restarts with load=True]; "
     "the pre-filled-file variant repeats this from the backup of a first crash k1 for every second crash point "
-    "k2 = 1..K2 of the restarted run (crash, restart, crash again, restart); a case is distinct by "
-    "(configuration, file absent / pre-filled from k1, crash point) and non-trivial when the child really died "
-    "inside a discipline execution"
+    "k2 = 1..K2 of the restarted run (crash, restart, crash again, restart); every crash point is restarted in two "
+    "modes (reset_iteration_counters=False and the driver's default reset); quick always includes the first two "
+    "and the last three crash points of each configuration; a case is distinct by "
+    "(configuration, file absent / pre-filled from k1 and the mode of the dying restart, crash point) and "
+    "non-trivial when the child really died inside a discipline execution"
 )
 ASSUMPTIONS = [
     "the side log is trusted: it is written with append+flush+fsync by harness-owned code before os._exit",
     "a crash is only injected inside a discipline execution (never inside an HDF5 write), as the statement says",
-    "restart protocol = same scenario, set_optimization_history_backup(load=True), same algorithm settings plus "
-    "reset_iteration_counters=False (documented way to complete a run from a backup)",
+    "restart protocol = same scenario, set_optimization_history_backup(load=True), same algorithm settings, once "
+    "with reset_iteration_counters=False (documented way to complete a run from a backup) and once with the "
+    "driver's default; with the default the replay clause is only enforced when the uninterrupted run was not ended "
+    "by max_iter (decided from the reference result message and counter)",
+    "the two restarts of one crash point run one after the other in the same child interpreter, each with a freshly "
+    "built scenario and its own copy of the backup (saves one gemseo import per crash point)",
     "re-execution at a stored design point is only a violation when nothing missing from the backup was computed "
     "at that point (an output absent from the backup cannot be memoised)",
     "backup at each iteration must hold at least the database content at the last new-iteration event and at most "
@@ -89,18 +104,25 @@ ANCHORS = [
 ]
 CHILD_ANCHORS = ANCHORS[3:] + ANCHORS[1:2]
 MIN_COUNTERS = {
-    "quick": {"configurations": 8, "crash_points": 26, "crash_points_prefilled": 3, "census_checked": 26,
-              "backups_loaded": 24, "backup_values_checked": 350, "backup_vs_reference_checked": 24,
-              "crash_before_first_export": 1, "iter_backup_last_point_partial": 8, "restarts_checked": 26,
-              "restart_execs_checked": 300, "stored_points_not_reexecuted": 100, "restarts_cheaper_than_reference": 20,
-              "loaded_entries_kept_checked": 100, "optimum_vs_loaded_checked": 20, "replay_history_checked": 22,
+    "quick": {"configurations": 8, "crash_points": 40, "crash_points_prefilled": 3, "census_checked": 40,
+              "crash_points_among_first_two": 10, "crash_points_among_last_three": 20,
+              "backups_loaded": 33, "backup_values_checked": 550, "backup_vs_reference_checked": 33,
+              "crash_before_first_export": 7, "iter_backup_last_point_partial": 12, "restarts_checked": 80,
+              "restarts_with_default_counter_reset": 40, "restarts_with_kept_counter": 40,
+              "restart_execs_checked": 1200, "stored_points_not_reexecuted": 330, "restarts_cheaper_than_reference": 50,
+              "loaded_entries_kept_checked": 350, "optimum_vs_loaded_checked": 55, "replay_history_checked": 55,
+              "replay_clause_judged_default_reset": 20, "deterministic_mdo_references_ended_by_gemseo_ftol_xtol": 2,
               "child_anchors_distinct": 10},
     "thorough": {"configurations": 11, "prefilled_first_crashes": 18, "crash_points": 280, "crash_points_prefilled": 160,
-                 "census_checked": 280, "backups_loaded": 250, "backup_values_checked": 2700,
+                 "census_checked": 280, "crash_points_among_first_two": 20, "crash_points_among_last_three": 30,
+                 "backups_loaded": 250, "backup_values_checked": 2700,
                  "backup_vs_reference_checked": 240, "crash_before_first_export": 20,
-                 "iter_backup_last_point_partial": 110, "restarts_checked": 280, "restart_execs_checked": 6000,
-                 "stored_points_not_reexecuted": 800, "restarts_cheaper_than_reference": 200,
-                 "loaded_entries_kept_checked": 900, "optimum_vs_loaded_checked": 200, "replay_history_checked": 250,
+                 "iter_backup_last_point_partial": 110, "restarts_checked": 560,
+                 "restarts_with_default_counter_reset": 280, "restarts_with_kept_counter": 280,
+                 "restart_execs_checked": 12000,
+                 "stored_points_not_reexecuted": 1600, "restarts_cheaper_than_reference": 400,
+                 "loaded_entries_kept_checked": 1800, "optimum_vs_loaded_checked": 400, "replay_history_checked": 350,
+                 "replay_clause_judged_default_reset": 100, "deterministic_mdo_references_ended_by_gemseo_ftol_xtol": 2,
                  "child_anchors_distinct": 10},
 }
 SHARD_TIMEOUT = {"quick": 1800, "thorough": 3600}  # caps only; ~40 s / ~150 s per shard on an idle machine
@@ -113,9 +135,9 @@ EXIT_CRASH = 17
 # --------------------------------------------------------------------------- configurations
 # name, scenario, kind, granularity, normalised, algorithm, #constraint components, MDA, slices (quick, thorough)
 CONFIGS = {
-    "mdo-disc-slsqp-call": dict(scenario="mdo", kind="single", gran="call", norm=False, algo="SLSQP", m=1, slices={"quick": (2, 1), "thorough": (3, 1)}, quick=True, prefill_quick=True),
-    "mdo-disc-slsqp-iter": dict(scenario="mdo", kind="single", gran="iter", norm=False, algo="SLSQP", m=2, obs=True, slices={"quick": (2, 1), "thorough": (3, 1)}, quick=True),
-    "mdo-disc-lbfgsb-both": dict(scenario="mdo", kind="single", gran="both", norm=False, algo="L-BFGS-B", m=0, slices={"quick": (2, 1), "thorough": (3, 1)}, quick=True),
+    "mdo-disc-slsqp-call": dict(scenario="mdo", kind="single", gran="call", norm=False, algo="SLSQP", m=1, converge=True, loose_tol=True, slices={"quick": (2, 1), "thorough": (3, 1)}, quick=True, prefill_quick=True),
+    "mdo-disc-slsqp-iter": dict(scenario="mdo", kind="single", gran="iter", norm=False, algo="SLSQP", m=2, obs=True, converge=True, slices={"quick": (2, 1), "thorough": (3, 1)}, quick=True),
+    "mdo-disc-lbfgsb-both": dict(scenario="mdo", kind="single", gran="both", norm=False, algo="L-BFGS-B", m=0, converge=True, slices={"quick": (2, 1), "thorough": (3, 1)}, quick=True),
     "mdo-disc-slsqp-call-norm": dict(scenario="mdo", kind="single", gran="call", norm=True, algo="SLSQP", m=1, obs=True, slices={"quick": (2, 1), "thorough": (3, 1)}, quick=True),
     "mdo-disc-lbfgsb-iter-norm": dict(scenario="mdo", kind="single", gran="iter", norm=True, algo="L-BFGS-B", m=0, slices={"quick": (2, 1), "thorough": (3, 1)}),
     "mdo-mdf-gs-call": dict(scenario="mdo", kind="coupled", gran="call", norm=False, algo="SLSQP", m=1, mda="MDAGaussSeidel", obs=True, slices={"quick": (3, 1), "thorough": (6, 3)}, quick=True),
@@ -152,10 +174,16 @@ def make_case(name, seed):
     settings = {}
     if c["scenario"] == "mdo":
         if c["kind"] == "single":
-            settings["max_iter"] = int(rng.integers(11, 17))
+            # "converge": a budget that the run does not exhaust, so that the uninterrupted run is ended by a
+            # tolerance criterion (GEMSEO's ftol/xtol testers or the algorithm's own test), not by max_iter
+            settings["max_iter"] = 60 if c.get("converge") else int(rng.integers(11, 17))
         else:
             settings["max_iter"] = int(rng.integers(3, 5))
         settings["normalize_design_space"] = bool(c["norm"])
+        if c.get("loose_tol"):
+            # GEMSEO's own ftol/xtol testers then fire before SLSQP's internal test for every seed tried, so that
+            # at least this reference is ended by the GEMSEO criteria (counted, see MIN_COUNTERS)
+            settings.update(ftol_rel=1e-5, xtol_rel=1e-5)
     elif fullfact:
         settings["n_samples"] = 9
     else:
@@ -180,19 +208,23 @@ def make_case(name, seed):
 
 
 def shards(tier, seed):
-    out = [{"seed": seed, "config": None, "slice": 0, "n_slices": 1, "budget_s": 1500}]  # shard 0: directed cases
+    """quick: one shard per configuration part, crash points run by a few worker threads (each experiment is a
+    chain of child interpreters, so threads only wait); thorough: slices of the crash-point list, one worker."""
+    out = [{"seed": seed, "config": None, "slice": 0, "n_slices": 1, "budget_s": 1500, "workers": 3}]  # shard 0: directed
     budget = {"quick": 1500, "thorough": 3000}[tier]
     for name, c in CONFIGS.items():
         if tier == "quick" and not c.get("quick"):
             continue
-        J, P = c["slices"][tier]
+        J, P = c["slices"]["thorough"] if tier == "thorough" else (1, 1)
+        W = 1 if tier == "thorough" else (4 if c["kind"] == "coupled" else 3)
         for j in range(J):
-            out.append({"seed": seed, "config": name, "part": "absent", "slice": j, "n_slices": J, "budget_s": budget})
+            out.append({"seed": seed, "config": name, "part": "absent", "slice": j, "n_slices": J, "budget_s": budget,
+                        "workers": W})
         if tier == "thorough" or c.get("prefill_quick"):
             for i in range(2 if tier == "thorough" else 1):
                 for j in range(P):
                     out.append({"seed": seed, "config": name, "part": "prefill", "k1_index": i, "slice": j,
-                                "n_slices": P, "budget_s": budget})
+                                "n_slices": P, "budget_s": budget, "workers": 1 if tier == "thorough" else 2})
     return out
 
 
@@ -201,18 +233,30 @@ class ChildTrouble(Exception):
     pass
 
 
-def _run_child(base, scratch, tag, *, backup, load, crash_at, rep, anchors=True):
-    """Run one child; returns (returncode, log events, final dict or None)."""
+MODES = ("keep", "default")  # restart with reset_iteration_counters=False / with the driver's default (reset)
+
+
+def _spawn(base, scratch, tag, rep, common, runs):
+    """Start one child interpreter serving ``runs`` (dicts overriding backup/log/final/keep_counter); returns
+    (returncode, [(events, final), ...])."""
     scratch = Path(scratch)
     cfg = {k: base[k] for k in ("scenario", "problem", "granularity", "algo", "algo_settings", "formulation_settings")}
     cfg["mda_scaling"] = base.get("mda_scaling")
     cfg["observable"] = base.get("observable", False)
-    cfg.update(backup=str(backup), load=bool(load), crash_at=int(crash_at), log=str(scratch / f"{tag}.log"),
-               final=str(scratch / f"{tag}.final"), anchors=CHILD_ANCHORS if anchors else [],
-               keep_counter=base.get("keep_counter", True))
-    for p in (cfg["log"], cfg["final"]):
-        if os.path.exists(p):
-            os.remove(p)
+    cfg["anchors"] = CHILD_ANCHORS
+    cfg.update(common)
+    full = []
+    for i, r in enumerate(runs):
+        r = dict(r, log=str(scratch / f"{tag}.{i}.log"), final=str(scratch / f"{tag}.{i}.final"))
+        r["backup"] = str(r["backup"])
+        for p in (r["log"], r["final"]):
+            if os.path.exists(p):
+                os.remove(p)
+        full.append(r)
+    if len(full) == 1:
+        cfg.update(full[0])
+    else:
+        cfg["runs"] = full
     cpath = scratch / f"{tag}.json"
     cpath.write_text(json.dumps(cfg))
     try:
@@ -225,32 +269,54 @@ def _run_child(base, scratch, tag, *, backup, load, crash_at, rep, anchors=True)
         rep.inconclusive(f"child {base['name']} hit the {CHILD_TIMEOUT}s watchdog")
         raise ChildTrouble("timeout")
     rep.count("children_run")
-    events = []
-    if os.path.exists(cfg["log"]):
-        for ln in Path(cfg["log"]).read_text().splitlines():
-            try:
-                events.append(json.loads(ln))
-            except ValueError:  # a torn last line cannot exist (fsync before exit) but do not trust it
-                rep.count("side_log_torn_lines")
-    final = None
-    if os.path.exists(cfg["final"]):
-        try:
-            final = json.loads(Path(cfg["final"]).read_text())
-        except ValueError:
-            final = None
+    out = []
     reached = set()
-    for ev in events:
-        if ev.get("ev") == "census":
-            reached.update(ev.get("anchors", []))
-    if final:
-        reached.update(final.get("anchors", []))
+    for r in full:
+        events = []
+        if os.path.exists(r["log"]):
+            for ln in Path(r["log"]).read_text().splitlines():
+                try:
+                    events.append(json.loads(ln))
+                except ValueError:  # a torn last line cannot exist (fsync before exit) but do not trust it
+                    rep.count("side_log_torn_lines")
+        final = None
+        if os.path.exists(r["final"]):
+            try:
+                final = json.loads(Path(r["final"]).read_text())
+            except ValueError:
+                final = None
+        for ev in events:
+            if ev.get("ev") == "census":
+                reached.update(ev.get("anchors", []))
+        if final:
+            reached.update(final.get("anchors", []))
+        out.append((events, final))
     if reached:
         _publish_anchors(reached, rep)
-    if res.returncode not in (0, EXIT_CRASH) or (res.returncode == 0 and final is None):
+    if res.returncode not in (0, EXIT_CRASH) or (res.returncode == 0 and any(f is None for _, f in out)):
         rep.count("children_died_unexpectedly")
         rep.inconclusive(f"child {base['name']}/{tag} ended rc={res.returncode}: {res.stderr[-600:]}")
         raise ChildTrouble(f"rc={res.returncode}")
-    return res.returncode, events, final
+    return res.returncode, out
+
+
+def _run_child(base, scratch, tag, *, backup, load, crash_at, rep, mode="keep"):
+    """Run one child doing one run; returns (returncode, log events, final dict or None)."""
+    rc, out = _spawn(base, scratch, tag, rep, {"load": bool(load), "crash_at": int(crash_at)},
+                     [{"backup": backup, "keep_counter": mode == "keep"}])
+    return rc, out[0][0], out[0][1]
+
+
+def _run_restarts(base, scratch, tag, *, backups, rep):
+    """One child interpreter restarting (load=True, no crash) once per mode, each on its own copy of the backup;
+    returns {mode: (events, final)}."""
+    modes = list(backups)
+    rc, out = _spawn(base, scratch, tag, rep, {"load": True, "crash_at": 0},
+                     [{"backup": backups[m_], "keep_counter": m_ == "keep"} for m_ in modes])
+    return dict(zip(modes, out))
+
+
+_ANCHOR_LOCK = threading.Lock()
 
 
 def _publish_anchors(names, rep):
@@ -260,23 +326,52 @@ def _publish_anchors(names, rep):
     The children run the very same ``vlib.reach.Reach`` monitor; what they entered is merged into the
     shard's monitor object (found in the caller frames of ``run_shard``) and also counted.
     """
-    for a in names:
-        rep.count("child_anchor_hits")
-    seen = getattr(rep, "_c12_child_anchors", None)
-    if seen is None:
-        seen = rep._c12_child_anchors = set()
-    new = set(names) - seen
+    rep.count("child_anchor_hits", len(names))
+    with _ANCHOR_LOCK:
+        seen = getattr(rep, "_c12_child_anchors", None)
+        if seen is None:
+            seen = rep._c12_child_anchors = set()
+        new = set(names) - seen
+        seen.update(new)
     if not new:
         return
-    seen.update(new)
     rep.count("child_anchors_distinct", len(new))
+    mon = getattr(rep, "_c12_monitor", None)
+    if mon is not None:
+        mon.reached.update(a for a in names if a in mon.anchors)
+
+
+def _find_monitor():
+    """The harness' reach monitor: a local of ``shard_main``, found in the caller frames (main thread only)."""
     f = sys._getframe()
     while f is not None:
         mon = f.f_locals.get("monitor")
         if mon is not None and hasattr(mon, "reached") and hasattr(mon, "anchors"):
-            mon.reached.update(a for a in names if a in mon.anchors)
-            return
+            return mon
         f = f.f_back
+    return None
+
+
+class _LockedRep:
+    """Reporter shared by the worker threads of a shard (every call under one lock)."""
+
+    def __init__(self, rep):
+        object.__setattr__(self, "_rep", rep)
+        object.__setattr__(self, "_lock", threading.RLock())
+
+    def __getattr__(self, name):
+        attr = getattr(self._rep, name)
+        if not callable(attr):
+            return attr
+
+        def call(*a, **k):
+            with self._lock:
+                return attr(*a, **k)
+
+        return call
+
+    def __setattr__(self, name, value):
+        setattr(self._rep, name, value)
 
 
 # --------------------------------------------------------------------------- reading backups
@@ -461,12 +556,23 @@ def _feasible_best(entries, base, tol):
     return best
 
 
-def judge_restart(base, case, rep, *, loaded, events, final, ref_entries, ref_K):
-    """Clauses 4 and 5 for a restart that ran to completion."""
+def judge_restart(base, case, rep, *, loaded, events, final, ref, mode="keep", chain_keeps_counter=True):
+    """Clauses 4 and 5 for a restart that ran to completion.
+
+    ``mode``: "keep" = restart with reset_iteration_counters=False, "default" = the driver's default (the counter
+    restored by the scenario is reset).  No rework, loaded entries kept and optimum no worse are verdicts in both
+    modes.  The replay clause (same final history as the uninterrupted run; deterministic configurations) is a
+    verdict in "keep" mode, and in "default" mode (or after an earlier default-mode restart in the chain) whenever
+    the uninterrupted run was *not* ended by max_iter: a reset counter legitimately gives a fresh budget, which
+    only matters for a run that exhausts it.
+    """
     gran, scen = base["granularity"], base["scenario"]
-    feat = f"{scen}:{gran}:{base['algo']}"
+    feat = f"{scen}:{gran}:{base['algo']}" + ("" if mode == "keep" else ":default-counter-reset")
+    case = dict(case, mode=mode)
+    ref_entries, ref_K = ref["entries"], ref["K"]
     loaded = loaded or []
     rep.count("restarts_checked")
+    rep.count("restarts_with_default_counter_reset" if mode == "default" else "restarts_with_kept_counter")
     if final.get("error"):
         where = "loading-the-backup" if str(final["error"]).startswith("backup-setup") else "execute"
         rep.violation(f"C12:restart-raises:{where}:{str(final['error']).split(':')[1 if where != 'execute' else 0].strip()}:{feat}",
@@ -531,8 +637,18 @@ def judge_restart(base, case, rep, *, loaded, events, final, ref_entries, ref_K)
     same = (len(fin) == len(ref_entries) and all(
         xa == xb and set(va) == set(vb) and all(_same(va[n_], vb[n_]) for n_ in va)
         for (xa, va), (xb, vb) in zip(fin, ref_entries)))
-    if base["deterministic"]:
+    budget_free = mode == "keep" and chain_keeps_counter
+    if base["deterministic"] and not budget_free and ref["stopped_by_max_iter"]:
+        # default counter reset and a reference that exhausted max_iter: a longer history is legitimate
+        rep.count("replay_clause_observed_default_reset_max_iter_reference")
+        if not same:
+            rep.observe("restart with the default reset_iteration_counters=True after a run ended by max_iter: the "
+                        "reset counter gives a fresh budget and the history differs (outside the statement)",
+                        {"config": base["name"], "n": len(fin), "n_ref": len(ref_entries)})
+    elif base["deterministic"]:
         rep.count("replay_history_checked")
+        if mode == "default":
+            rep.count("replay_clause_judged_default_reset")
         lost = _lost_observable(base, fin, ref_entries, loaded) if not same else None
         if lost:
             # narrow mechanism: the point that was the last entry of the backup and had been exported before its
@@ -616,8 +732,26 @@ def crash_points(K, tier):
         return []
     if tier == "thorough":
         return list(range(1, K + 1))
+    # quick: every ceil(K/8)-th crash point, and always the first two and the last three (start-up and
+    # termination are where restart protocols go wrong)
     step = math.ceil(K / 8)
-    return list(range(step, K + 1, step))
+    pts = set(range(step, K + 1, step)) | {1, 2} | {K - 2, K - 1, K}
+    return sorted(k for k in pts if 1 <= k <= K)
+
+
+def _stop_reason(base, final):
+    """How the uninterrupted run ended: "max_iter", "gemseo_ftol_xtol", "algorithm" (its own convergence test or
+    any other reason), or "doe" (all samples evaluated)."""
+    if base["scenario"] == "doe":
+        return "doe"
+    msg = ((final.get("result") or {}).get("message") or "")
+    max_iter = base["algo_settings"]["max_iter"]
+    if "aximum number of iterations" in msg or final.get("counter_end", 0) >= max_iter \
+            or len(final.get("database", [])) >= max_iter:
+        return "max_iter"
+    if "ftol_rel or ftol_abs" in msg or "xtol_rel or xtol_abs" in msg:
+        return "gemseo_ftol_xtol"
+    return "algorithm"
 
 
 def reference(base, scratch, rep):
@@ -627,20 +761,25 @@ def reference(base, scratch, rep):
         rep.inconclusive(f"reference run of {base['name']} failed: rc={rc} {final and final.get('error')}")
         raise ChildTrouble("reference")
     rep.count("reference_runs")
-    return {"K": final["n_exec"], "entries": _final_entries(final), "final": final, "events": events}
+    why = _stop_reason(base, final)
+    return {"K": final["n_exec"], "entries": _final_entries(final), "final": final, "events": events,
+            "stop_reason": why, "stopped_by_max_iter": why == "max_iter"}
 
 
-def experiment(base, ref, scratch, rep, *, k, k1=None):
-    """One crash point.  ``k1 is None``: file initially absent; else the file is the backup of a first crash k1."""
+def experiment(base, ref, scratch, rep, *, k, k1=None, mid_mode="keep", first_dir=None):
+    """One crash point.  ``k1 is None``: file initially absent; else the file is the backup of a first crash k1 and
+    the run that dies at its k-th execution is itself a restart (``mid_mode``).  What the crash leaves is then
+    restarted in both modes (two copies of the backup, one child interpreter)."""
     scratch = Path(scratch)
+    scratch.mkdir(parents=True, exist_ok=True)
     kind = "absent" if k1 is None else "prefilled"
-    case = {"base": base, "kind": kind, "k": k, "k1": k1}
+    case = {"base": base, "kind": kind, "k": k, "k1": k1, "mid_mode": mid_mode}
     work = scratch / "work.h5"
     if work.exists():
         work.unlink()
     loaded = None
     if k1 is not None:
-        first = scratch / f"first_{k1}.h5"
+        first = Path(first_dir or scratch) / f"first_{k1}_{mid_mode}.h5"
         if first.exists():
             shutil.copy(first, work)
             try:
@@ -648,34 +787,54 @@ def experiment(base, ref, scratch, rep, *, k, k1=None):
             except Unloadable:  # reported by the owner of the ("absent", k1) crash point
                 return
     tag = f"crash_{kind}_{k1}_{k}"
-    rc, events, final = _run_child(base, scratch, tag, backup=work, load=k1 is not None, crash_at=k, rep=rep)
+    rc, events, final = _run_child(base, scratch, tag, backup=work, load=k1 is not None, crash_at=k, rep=rep,
+                                   mode=mid_mode)
     if rc != EXIT_CRASH:
         rep.count("crash_point_beyond_run")
         rep.inconclusive(f"{base['name']}: crash point {k} ({kind}) was not reached (run ended after {final and final.get('n_exec')} executions)")
         return
     execs = [e for e in events if e.get("ev") == "exec"]
-    rep.case((base["name"], kind, k1, k), True)
+    rep.case((base["name"], kind, k1, mid_mode if k1 is not None else None, k), True)
     rep.count("crash_points")
     rep.count(f"crash_points_{kind}")
     rep.count(f"crash_in_{execs[-1]['disc']}" if execs else "crash_in_?")
+    if k1 is None:
+        if k <= 2:
+            rep.count("crash_points_among_first_two")
+        if k > ref["K"] - 3:
+            rep.count("crash_points_among_last_three")
+    # a second-crash backup is compared with the uninterrupted history unless the dying restart had a fresh budget
+    # that the reference had exhausted (it then legitimately runs past the reference)
+    with_ref = k1 is None or (base["deterministic"] and (mid_mode == "keep" or not ref["stopped_by_max_iter"]))
     got = judge_backup(base, case, rep, backup_path=work, events=events, loaded=loaded, ref_entries=ref["entries"],
-                       compare_with_ref=(k1 is None or base["deterministic"]))
+                       compare_with_ref=with_ref)
     if got is None:
         return
     if got:
         rep.count("crash_points_with_backup")
-    # restart from what the crash left
-    tag = f"restart_{kind}_{k1}_{k}"
-    rc, events2, final2 = _run_child(base, scratch, tag, backup=work, load=True, crash_at=0, rep=rep)
-    judge_restart(base, case, rep, loaded=got, events=events2, final=final2, ref_entries=ref["entries"], ref_K=ref["K"])
-    if not final2.get("error"):
-        judge_final_backup(base, rep, work, final2)
+    # restart from what the crash left, once per restart mode
+    backups = {}
+    for m_ in MODES:
+        backups[m_] = scratch / f"work_{m_}.h5"
+        if backups[m_].exists():
+            backups[m_].unlink()
+        if work.exists():
+            shutil.copy(work, backups[m_])
+    runs = _run_restarts(base, scratch, f"restart_{kind}_{k1}_{k}", backups=backups, rep=rep)
+    for m_, (events2, final2) in runs.items():
+        judge_restart(base, case, rep, loaded=got, events=events2, final=final2, ref=ref, mode=m_,
+                      chain_keeps_counter=mid_mode == "keep")
+        if not final2.get("error"):
+            judge_final_backup(base, rep, backups[m_], final2)
+    final2 = runs["keep"][1]
     if len(rep.samples) < 2:
         rep.sample({"config": base["name"], "kind": kind, "k1": k1, "k": k, "K": ref["K"],
+                    "reference_ended_by": ref["stop_reason"],
                     "backup_entries": len(got), "last_backup_names": sorted(got[-1][1]) if got else None,
-                    "restart_executions": final2.get("n_exec"), "final_entries": len(final2.get("database", [])),
+                    "restart_executions": {m_: r[1].get("n_exec") for m_, r in runs.items()},
+                    "final_entries": {m_: len(r[1].get("database", [])) for m_, r in runs.items()},
                     "reference_entries": len(ref["entries"]),
-                    "note": "crash in k-th discipline execution -> backup judged -> restart judged"})
+                    "note": "crash in k-th discipline execution -> backup judged -> restart judged in both modes"})
 
 
 class _Quiet:
@@ -704,10 +863,11 @@ def first_crash_points(K, tier):
     return [max(2, K // 2)]
 
 
-def prepare_prefill(base, ref, scratch, rep, k1):
-    """Crash at k1 from scratch and measure K2, the executions of the uninterrupted restart from that backup."""
+def prepare_prefill(base, ref, scratch, rep, k1, mid_mode="keep"):
+    """Crash at k1 from scratch and measure K2, the executions of the uninterrupted restart (``mid_mode``) from
+    that backup."""
     scratch = Path(scratch)
-    first = scratch / f"first_{k1}.h5"
+    first = scratch / f"first_{k1}_{mid_mode}.h5"
     tmp = scratch / "prefill_work.h5"
     for p in (first, tmp):
         if p.exists():
@@ -718,11 +878,20 @@ def prepare_prefill(base, ref, scratch, rep, k1):
         raise ChildTrouble("prefill")
     if first.exists():
         shutil.copy(first, tmp)
-    rc, _, final = _run_child(base, scratch, f"prefill_restart_{k1}", backup=tmp, load=True, crash_at=0, rep=rep)
+    rc, _, final = _run_child(base, scratch, f"prefill_restart_{k1}", backup=tmp, load=True, crash_at=0, rep=rep,
+                              mode=mid_mode)
     rep.count("prefill_setups")
     if final.get("error"):
         return 0  # judged (and reported) by the owner of the ("absent", k1) item
     return int(final["n_exec"])
+
+
+def _mid_mode(spec):
+    """Restart mode of the run that dies in the pre-filled variant: thorough = keep for the first k1, default for
+    the second; quick = default for the function-call configuration, keep for the others."""
+    if spec.get("tier") == "thorough":
+        return MODES[spec.get("k1_index", 0) % 2]
+    return "default" if spec.get("config") == "mdo-disc-slsqp-call" else "keep"
 
 
 def run_config(base, spec, rep, tier):
@@ -736,11 +905,15 @@ def run_config(base, spec, rep, tier):
     part = spec.get("part", "absent")
     ref = reference(base, scratch, rep)
     K = ref["K"]
+    mid_mode = "keep"
     if part == "absent":
         items = [("absent", None, k) for k in crash_points(K, tier)]
         if j == 0:
             rep.count("configurations")
             rep.count("reference_executions_K", K)
+            rep.count(f"references_ended_by_{ref['stop_reason']}")
+            if base["scenario"] == "mdo" and base["deterministic"] and ref["stop_reason"] == "gemseo_ftol_xtol":
+                rep.count("deterministic_mdo_references_ended_by_gemseo_ftol_xtol")
             judge_final_backup(base, rep, scratch / "ref.h5", ref["final"])
     else:
         k1s = first_crash_points(K, tier)
@@ -748,24 +921,38 @@ def run_config(base, spec, rep, tier):
             rep.count("prefill_part_without_first_crash_point")
             return
         k1 = k1s[spec["k1_index"]]
-        K2 = prepare_prefill(base, ref, scratch, rep, k1)
+        mid_mode = _mid_mode(spec)
+        K2 = prepare_prefill(base, ref, scratch, rep, k1, mid_mode)
         items = [("prefilled", k1, k2) for k2 in _prefill_points(K2, tier)]
         if j == 0:
             rep.count("prefilled_first_crashes")
+            rep.count(f"prefilled_first_crashes_restarted_in_{mid_mode}_mode")
             rep.count("restart_executions_K2", K2)
     if j == 0:
         rep.count("crash_points_total", len(items))
-    for i, (kind, k1, k) in enumerate(items):
-        if i % J != j:
-            continue
+    mine = [it for i, it in enumerate(items) if i % J == j]
+
+    def one(item):
+        kind, k1, k = item
         if rep.time_left() < 0:
             rep.count("stopped_on_time_budget")
-            break
+            return
         try:
-            experiment(base, ref, scratch, rep, k=k, k1=k1)
+            experiment(base, ref, scratch / f"x_{kind}_{k1}_{k}", rep, k=k, k1=k1, mid_mode=mid_mode, first_dir=scratch)
         except ChildTrouble:
-            continue
+            return
         rep.count("crash_points_enumerated")
+
+    _run_items(one, mine, spec.get("workers", 1))
+
+
+def _run_items(fn, items, workers):
+    if workers <= 1 or len(items) <= 1:
+        for it in items:
+            fn(it)
+        return
+    with ThreadPoolExecutor(max_workers=workers) as ex:
+        list(ex.map(fn, items))  # re-raises the first exception of a worker (harness error => inconclusive)
 
 
 def _prefill_points(K2, tier):
@@ -779,34 +966,47 @@ def _prefill_points(K2, tier):
 
 # --------------------------------------------------------------------------- directed cases
 def directed(spec, rep, tier):
-    """Fixed corners (shard 0 only): crash in the very first execution (no file yet, restart with load=True on
-    an absent file), crash in the last execution, and the default counter reset (observation only)."""
+    """Fixed corners (shard 0 only), each restarted in both modes:
+
+    A. a run ended by ``max_iter`` (=6): crash in the very first execution (no file yet, restart with load=True on
+       an absent file) and in the last one; the restored counter is decisive in "keep" mode, the default mode gets
+       a fresh budget (observation);
+    B. the same problem with a budget it does not exhaust (ended by a tolerance criterion): crash in each of the
+       last two executions; both modes must end with the uninterrupted history.
+    """
     scratch = Path(spec["scratch"]) / "directed"
     scratch.mkdir(exist_ok=True)
-    base = make_case("mdo-disc-slsqp-call", 12345)
-    base["name"] = "directed:mdo-disc-slsqp-call"
-    base["algo_settings"]["max_iter"] = 6  # the reference stops on max_iter: the restored counter matters
-    ref = reference(base, scratch, rep)
-    for k in sorted({1, ref["K"]}):
-        experiment(base, ref, scratch, rep, k=k)
+    jobs = []
+    for label, max_iter in (("A", 6), ("B", 60)):
+        base = make_case("mdo-disc-slsqp-call", 12345)
+        base["name"] = f"directed{label}:mdo-disc-slsqp-call:max_iter={max_iter}"
+        base["algo_settings"]["max_iter"] = max_iter
+        sub = scratch / label
+        sub.mkdir(exist_ok=True)
+        ref = reference(base, sub, rep)
+        rep.count(f"directed_references_ended_by_{ref['stop_reason']}")
+        if ref["stop_reason"] == "gemseo_ftol_xtol":
+            rep.count("deterministic_mdo_references_ended_by_gemseo_ftol_xtol")
+        ks = sorted({1, ref["K"]}) if label == "A" else sorted({max(1, ref["K"] - 1), ref["K"]})
+        jobs += [(base, ref, sub, k) for k in ks]
+
+    def one(job):
+        base, ref, sub, k = job
+        try:
+            experiment(base, ref, sub / f"x_{k}", rep, k=k)
+        except ChildTrouble:
+            return
         rep.count("directed_cases")
-    # same restart with the driver's default reset_iteration_counters=True: outside the documented protocol
-    k = max(2, ref["K"] // 2)
-    work = scratch / "work.h5"
-    if work.exists():
-        work.unlink()
-    rc, _, _ = _run_child(base, scratch, "dflt_crash", backup=work, load=False, crash_at=k, rep=rep)
-    b2 = dict(base, keep_counter=False)
-    rc, _, fin = _run_child(b2, scratch, "dflt_restart", backup=work, load=True, crash_at=0, rep=rep)
-    if fin and not fin.get("error") and len(fin["database"]) > len(ref["entries"]):
-        rep.observe("restart without reset_iteration_counters=False overshoots max_iter (counter restored by the scenario "
-                    "is reset by the driver; documented option, outside the statement)",
-                    {"final_entries": len(fin["database"]), "reference_entries": len(ref["entries"]), "max_iter": 6})
+
+    _run_items(one, jobs, spec.get("workers", 1))
 
 
 # --------------------------------------------------------------------------- entry points
 def run_shard(spec, rep):
     tier = spec.get("tier", "quick")
+    rep._c12_monitor = _find_monitor()  # must be looked up in the main thread
+    if spec.get("workers", 1) > 1:
+        rep = _LockedRep(rep)
     if spec["config"] is None:
         try:
             directed(spec, rep, tier)
@@ -834,7 +1034,9 @@ def coverage_extra(tier, counters):
             f"all K crash points (process death inside the k-th harness-discipline execution, k=1..K) of the "
             f"uninterrupted run of each of the {len(CONFIGS)} configurations with the file initially absent, and all "
             f"K2 second crash points of the restarted run for the pre-filled file left by first crashes at "
-            f"k1 = K//3 and 2K//3 ({done} crash points in total); not exhaustive over problems, algorithms or k1")
+            f"k1 = K//3 (restarted with reset_iteration_counters=False) and 2K//3 (restarted with the default counter "
+            f"reset) ({done} crash points in total), every crash point being restarted in both modes; not exhaustive "
+            f"over problems, algorithms or k1")
     return out
 
 
@@ -842,6 +1044,7 @@ def replay(case, rep):
     scratch = Path(rep.spec["scratch"])
     base = case["base"]
     ref = reference(base, scratch, rep)
+    mid = case.get("mid_mode", "keep")
     if case.get("k1") is not None:
-        prepare_prefill(base, ref, scratch, rep, case["k1"])
-    experiment(base, ref, scratch, rep, k=case["k"], k1=case.get("k1"))
+        prepare_prefill(base, ref, scratch, rep, case["k1"], mid)
+    experiment(base, ref, scratch / "x", rep, k=case["k"], k1=case.get("k1"), mid_mode=mid, first_dir=scratch)
